@@ -92,3 +92,28 @@ package coroutines
 //@ ensures (res != nil) != (err != nil)
 //@ ensures err == nil ==> res.Kind == t_api.HeartbeatTasks && res.HeartbeatTasks != nil && res.HeartbeatTasks.Status == t_api.StatusOK
 //@ ensures err == nil ==> linearizes(post_tasks(anykey("hb")) == spec.HeartbeatTasks.tasks(pre_tasks(anykey("hb")), anykey("hb"), r.HeartbeatTasks.ProcessId, T) && res.HeartbeatTasks.TasksAffected == count_pre("tasks", "task.heldby", r.HeartbeatTasks.ProcessId))
+
+//@ func ReadSchedule
+//@ props C02 C10 C20
+//@ ghostdb coroutine
+//@ requires c != nil && r != nil && r.ReadSchedule != nil
+//@ ensures (res != nil) != (err != nil)
+//@ ensures err == nil ==> res.Kind == t_api.ReadSchedule && res.ReadSchedule != nil
+//@ ensures err == nil ==> linearizes(post_schedules(r.ReadSchedule.Id) == pre_schedules(r.ReadSchedule.Id) && (!pre_schedules(r.ReadSchedule.Id).present ==> res.ReadSchedule.Status == t_api.StatusScheduleNotFound) && (pre_schedules(r.ReadSchedule.Id).present ==> res.ReadSchedule.Status == t_api.StatusOK && res.ReadSchedule.Schedule != nil && sview(res.ReadSchedule.Schedule) == sview.row(pre_schedules(r.ReadSchedule.Id))))
+
+//@ func DeleteSchedule
+//@ props C02 C10
+//@ ghostdb coroutine
+//@ requires c != nil && r != nil && r.DeleteSchedule != nil
+//@ ensures (res != nil) != (err != nil)
+//@ ensures err == nil ==> res.Kind == t_api.DeleteSchedule && res.DeleteSchedule != nil
+//@ ensures err == nil ==> linearizes(!post_schedules(r.DeleteSchedule.Id).present && (pre_schedules(r.DeleteSchedule.Id).present ==> res.DeleteSchedule.Status == t_api.StatusNoContent) && (!pre_schedules(r.DeleteSchedule.Id).present ==> res.DeleteSchedule.Status == t_api.StatusScheduleNotFound))
+
+//@ macro sreq() r.CreateSchedule
+//@ func CreateSchedule
+//@ props C02 C10 C20
+//@ ghostdb coroutine
+//@ requires c != nil && r != nil && r.CreateSchedule != nil
+//@ ensures (res != nil) != (err != nil)
+//@ ensures err == nil ==> res.Kind == t_api.CreateSchedule && res.CreateSchedule != nil && res.CreateSchedule.Schedule != nil
+//@ ensures err == nil ==> linearizes((pre_schedules(sreq().Id).present ==> post_schedules(sreq().Id) == pre_schedules(sreq().Id) && res.CreateSchedule.Status == seq.createschedule.status.exists(pre_schedules(sreq().Id), opt(sreq().IdempotencyKey))) && (!pre_schedules(sreq().Id).present ==> res.CreateSchedule.Status == t_api.StatusCreated && post_schedules(sreq().Id).present && sview.row(post_schedules(sreq().Id)) == mk.sview(sreq().Id, sreq().Description, sreq().Cron, sreq().Tags, sreq().PromiseId, sreq().PromiseTimeout, sreq().PromiseParam.Headers, sreq().PromiseParam.Data, sreq().PromiseTags, inone, cronnext(sreq().Cron, T), opt(sreq().IdempotencyKey), T)) && sview(res.CreateSchedule.Schedule) == sview.row(post_schedules(sreq().Id)))
